@@ -66,6 +66,15 @@ def stepC24 : List String → String
       match ps.mapM prod? with
       | some l => " ".intercalate ((sortProducers l).map (fun (p : Producer × List Nat) => hexOf p.1.key))
       | none => "bad-op"
+  | "snap" :: _ => "isolated"   -- a snapshot is a value: later changes of the live state cannot reach it
+  | ["ckorder", _reps, pairs] =>
+      match (pairs.splitOn ",").mapM (fun t => match t.splitOn ":" with
+          | [k, p] => (nat? p).map (fun p => (k, p))
+          | _ => none) with
+      | some l => match checkpointOrder l with
+          | some ks => ",".intercalate ks
+          | none => "ambiguous"
+      | none => "bad-op"
   | "wrand" :: seed :: normal :: cands :: period :: height :: unclaimed :: lastH :: lastO :: iso :: env :: _blk :: _tip :: ps =>
       match (if seed = "none" then some none else (int? seed).map some), int? normal, int? cands, nat? period, nat? height,
             int? unclaimed, nat? lastH, (if lastO = "-" then some [] else bytesOf? lastO), nat? iso, envOps? env, ps.mapM prod? with
